@@ -41,6 +41,7 @@ type lv struct {
 
 	n, d *lv // kRQ
 	r    *lv // kRS
+	noArith bool // huge constant: comparisons only
 	loose bool // kRS from Hypot: equal radicands need not give equal results
 }
 
@@ -213,7 +214,13 @@ func (g *G) constLV(f float64) *lv {
 		s = -e
 	} else {
 		if e > 40 {
-			g.fail("constant %v too large for the grid", f)
+			// a huge constant (math.MaxFloat64 as "infinity"): it may only be
+			// compared with grid values, all of which are far smaller
+			k := int64(1) << 62
+			if f < 0 {
+				k = -k
+			}
+			return &lv{kind: kFin, k: c.IntC(64, k), w: 64, noArith: true}
 		}
 		mi <<= uint(e)
 	}
@@ -439,7 +446,7 @@ func (g *G) ite(cond *smt.Term, a, b *lv) *lv {
 		g.fail("ite over values of different exactness tags")
 	}
 	k1, k2, w, s := g.align(a, b)
-	return &lv{kind: kFin, k: c.Ite(cond, k1, k2), w: w, s: s, eps: a.eps,
+	return &lv{kind: kFin, k: c.Ite(cond, k1, k2), w: w, s: s, eps: a.eps, noArith: a.noArith || b.noArith,
 		nan: orNil(c, cond, a.nan, b.nan), pinf: orNil(c, cond, a.pinf, b.pinf), ninf: orNil(c, cond, a.ninf, b.ninf)}
 }
 
@@ -492,6 +499,9 @@ func (g *G) add(a, b *lv, sub bool) *lv {
 	}
 	if a.kind != kFin || b.kind != kFin {
 		g.fail("addition involving a rounded value")
+	}
+	if a.noArith || b.noArith {
+		g.fail("arithmetic on a huge constant")
 	}
 	if g.hasSpecial(a) || g.hasSpecial(b) {
 		// Inf/NaN arithmetic: keep flags symbolic for the common cases
@@ -561,6 +571,9 @@ func (g *G) mul(a, b *lv) *lv {
 	if a.kind != kFin || b.kind != kFin || a.eps != 0 || b.eps != 0 {
 		g.fail("multiplication involving a rounded or nudged value")
 	}
+	if a.noArith || b.noArith {
+		g.fail("arithmetic on a huge constant")
+	}
 	w := a.w + b.w
 	r := &lv{kind: kFin, k: c.Mul(c.SExt(a.k, w), c.SExt(b.k, w)), w: w, s: a.s + b.s}
 	if g.hasSpecial(a) || g.hasSpecial(b) {
@@ -607,6 +620,9 @@ func (g *G) div(a, b *lv) *lv {
 	}
 	if g.hasSpecial(a) || g.hasSpecial(b) {
 		g.fail("division involving infinities")
+	}
+	if a.noArith || b.noArith {
+		g.fail("arithmetic on a huge constant")
 	}
 	return &lv{kind: kRQ, n: a, d: b}
 }
